@@ -432,7 +432,8 @@ int main(int argc, char** argv) {
     bool match = o.boolean("comments") == (ARDUINOJSON_ENABLE_COMMENTS != 0) &&
                  o.boolean("nan") == (ARDUINOJSON_ENABLE_NAN != 0) &&
                  o.boolean("inf") == (ARDUINOJSON_ENABLE_INFINITY != 0) &&
-                 o.boolean("unicode") == (ARDUINOJSON_DECODE_UNICODE != 0);
+                 o.boolean("unicode") == (ARDUINOJSON_DECODE_UNICODE != 0) &&
+                 (!o.has("maxstr") || (size_t)o.num("maxstr") == (size_t)ArduinoJson::detail::StringNode::maxLength);
     if (!match) { skipped++; idx++; continue; }
     Fmt fmt = c.has("fmt") && c.str("fmt") == "msgpack" ? MSGPACK : JSON;
     std::string bytes;
@@ -504,10 +505,13 @@ int main(int argc, char** argv) {
         if (r.code == "skip") continue;
         evals++;
         std::string where = std::string(" [kind=") + KINDS[kind] + (useFilter ? ",filter" : "") + "]";
-        if (r.code != expCode) problem = "code expected=" + expCode + " got=" + r.code + where;
+        // "slotlimit" inputs approach the number of slots the build can address: running out of slots (NoMemory)
+        // is as legitimate as the specification's outcome; the post-conditions are what these inputs are for
+        bool nomemOk = c.has("tag") && c.str("tag") == "slotlimit" && r.code == "NoMemory";
+        if (r.code != expCode && !nomemOk) problem = "code expected=" + expCode + " got=" + r.code + where;
         else if (!r.diff.empty()) problem = "value " + r.diff + where;
         else if (!r.after.empty()) problem = "post-condition: " + r.after + where;
-        else if (r.consumed >= 0 && expCode == "Ok" && r.consumed != expRead)
+        else if (r.consumed >= 0 && expCode == "Ok" && r.code == "Ok" && r.consumed != expRead)
           problem = "consumed expected=" + std::to_string(expRead) + " got=" + std::to_string(r.consumed) + where;
         else if (r.consumed > (long)bytes.size()) problem = "read beyond the end of the input" + where;
         if (alloc.liveBlocks() != 0 || !alloc.errors().empty()) problem = "allocator ledger not empty after destruction" + where;
@@ -517,7 +521,9 @@ int main(int argc, char** argv) {
           Outcome u = runKind(fmt, kind, bytes, false, f, lim, nullptr, o.boolean("nan"), o.boolean("inf"), weird, alloc2,
                               (unsigned)((idx + kind) % 3));
           evals++;
-          if (r.requested > u.requested + 64 || r.peak > u.peak + 64)
+          // (an unfiltered run that stops at a capacity limit - a string longer than the configured maximum,
+          //  no slot left - is not a yardstick: the filtered run legitimately goes on past what it does not store)
+          if (u.code != "NoMemory" && (r.requested > u.requested + 64 || r.peak > u.peak + 64))
             problem = "filtered run used more memory than the unfiltered one: requested " + std::to_string(r.requested) +
                       " vs " + std::to_string(u.requested) + ", peak " + std::to_string(r.peak) + " vs " +
                       std::to_string(u.peak) + where;
